@@ -216,6 +216,7 @@ def make_builtins(interp):
     exc("ModuleNotFoundError", "ImportError")
     exc("UnboundLocalError", "NameError")
     exc("UserFault", "Exception")  # an arbitrary exception raised by user code
+    exc("GeneratorExit", "BaseException")
     exc("KeyboardInterrupt", "BaseException")
     exc("SystemExit", "BaseException")
     b["NotImplemented"] = Sym("NotImplemented", "any", uid=0)
@@ -638,11 +639,24 @@ def make_builtins(interp):
 
     @reg("iter")
     def _(i, a, k, n):
+        from .interp import GenV
+
+        if isinstance(a[0], (GenV, IterV)):
+            return a[0]
         return IterV(a[0])
 
     @reg("next")
     def _(i, a, k, n):
+        from .interp import GenV, AbsRaise as _AR
+
         it_ = a[0]
+        if isinstance(it_, GenV):
+            try:
+                return it_.next(n)
+            except _AR as ar:
+                if len(a) > 1 and i.is_stop(ar):
+                    return a[1]
+                raise
         if not isinstance(it_, IterV):
             raise Unsupported(f"next() of {it_!r}", n)
         if it_.items is None:
@@ -852,6 +866,84 @@ def _mod_functools(interp, m):
     _ext_default_getter(m, "functools")
 
 
+def _mod_contextlib(interp, m):
+    from .interp import AbsRaise, GenV
+
+    def method(name, impl):
+        b = BuiltinV(name, impl)
+        b.is_method = True
+        return b
+
+    GCM = ClassV("_GeneratorContextManager", [], {}, None, None, "contextlib._GeneratorContextManager")
+
+    def gcm_enter(i, a, k, n):
+        g = a[0].fields["gen"]
+        try:
+            return g.next(n)
+        except AbsRaise as ar:
+            if i.is_stop(ar):
+                raise AbsRaise(i.make_exc("RuntimeError", "generator didn't yield"), i.site(n), True)
+            raise
+
+    def gcm_exit(i, a, k, n):
+        g = a[0].fields["gen"]
+        exc = a[2] if len(a) > 2 else None
+        if exc is None:
+            try:
+                g.next(n)
+            except AbsRaise as ar:
+                if i.is_stop(ar):
+                    return False
+                raise
+            raise AbsRaise(i.make_exc("RuntimeError", "generator didn't stop"), i.site(n), True)
+        try:
+            g.throw(exc, n)
+        except AbsRaise as ar:
+            if i.is_stop(ar):
+                return True  # the generator swallowed the exception
+            if ar.exc is exc:
+                return False  # re-raised: the with statement lets the original propagate
+            raise
+        raise AbsRaise(i.make_exc("RuntimeError", "generator didn't stop after throw()"), i.site(n), True)
+
+    GCM.ns["__enter__"] = method("contextmanager.__enter__", gcm_enter)
+    GCM.ns["__exit__"] = method("contextmanager.__exit__", gcm_exit)
+
+    def contextmanager(i, a, k, n):
+        f = a[0]
+
+        def make(i2, a2, k2, n2):
+            g = i2.call(f, list(a2), dict(k2), n2)
+            if not isinstance(g, GenV):
+                raise Unsupported("contextmanager on something that is not a generator function", n2)
+            return Obj(GCM, {"gen": g})
+
+        b = BuiltinV(f"contextlib.<contextmanager {getattr(f, 'qualname', f)}>", make)
+        b.is_method = True  # binds like a function when found on a class
+        b.wrapped = f
+        return b
+
+    m.ns["contextmanager"] = BuiltinV("contextlib.contextmanager", contextmanager)
+
+    SUP = ClassV("suppress", [], {}, None, None, "contextlib.suppress")
+
+    def sup_exit(i, a, k, n):
+        exc = a[2] if len(a) > 2 else None
+        if exc is None:
+            return False
+        return any(i.exc_isinstance(exc, c) for c in a[0].fields["excs"])
+
+    SUP.ns["__enter__"] = method("suppress.__enter__", lambda i, a, k, n: None)
+    SUP.ns["__exit__"] = method("suppress.__exit__", sup_exit)
+    m.ns["suppress"] = BuiltinV("contextlib.suppress", lambda i, a, k, n: Obj(SUP, {"excs": tuple(a)}))
+
+    NUL = ClassV("nullcontext", [], {}, None, None, "contextlib.nullcontext")
+    NUL.ns["__enter__"] = method("nullcontext.__enter__", lambda i, a, k, n: a[0].fields["value"])
+    NUL.ns["__exit__"] = method("nullcontext.__exit__", lambda i, a, k, n: False)
+    m.ns["nullcontext"] = BuiltinV("contextlib.nullcontext", lambda i, a, k, n: Obj(NUL, {"value": a[0] if a else None}))
+    _ext_default_getter(m, "contextlib")
+
+
 def _mod_math(interp, m):
     def pw(i, a, k, n):
         x, y = i.as_num(a[0], n), i.as_num(a[1], n)
@@ -1026,6 +1118,7 @@ def _mod_operator(interp, m):
 
 
 _MODEL_MODULES = {
+    "contextlib": _mod_contextlib,
     "dataclasses": _mod_dataclasses,
     "operator": _mod_operator,
     "itertools": _mod_itertools,
